@@ -151,9 +151,12 @@ def prune_builds(pid, keep):
     d = os.path.join(BUILD, pid)
     if not os.path.isdir(d):
         return
+    names = {os.path.basename(k).rsplit('-', 1)[0] for k in keep}
+    now = time.time()
     for e in os.listdir(d):
         p = os.path.join(d, e)
-        if os.path.isdir(p) and p not in keep and e.split('-')[0] in {os.path.basename(k).split('-')[0] for k in keep}:
+        # other trees' builds of the same stage are dropped once they are stale (a concurrent run against another tree may be using them)
+        if os.path.isdir(p) and p not in keep and e.rsplit('-', 1)[0] in names and now - os.path.getmtime(p) > 2 * 3600:
             shutil.rmtree(p, ignore_errors=True)
 
 
